@@ -39,12 +39,12 @@ ASSUMPTIONS = [
 
 NAME = "k"
 _LEARNED = {}
-_TMPNAME = re.compile(r"[0-9a-f]{32}")
 
 
 def _stable(snap):
-    """the tree without left-over temporary files (random names)"""
-    return {k: v for k, v in snap.items() if not _TMPNAME.search(k)}
+    """the tree without left-over temporary files (anything in the crop
+    directory that does not carry one of the official names)"""
+    return {k: v for k, v in snap.items() if not fsseam.is_temporary(k)}
 
 
 def configs(tier):
